@@ -1134,6 +1134,17 @@ func c04KindGuardedElements(ctx *Ctx, r *Report) {
 						return true
 					}
 				}
+				// short-circuit: `x.IsRef() && x.Ref.F == …` — the selection sits in the right operand of a conjunction
+				// whose left operand tests the kind
+				child := ast.Node(sel)
+				for p := parents[child]; p != nil; child, p = p, parents[p] {
+					if _, isExpr := p.(ast.Expr); !isExpr {
+						break
+					}
+					if be, ok := p.(*ast.BinaryExpr); ok && be.Op == token.LAND && child == ast.Node(be.Y) && kindTested(be.X, e) {
+						return true
+					}
+				}
 				g := false
 				ast.Inspect(fd.Body, func(k ast.Node) bool {
 					if is, ok := k.(*ast.IfStmt); ok && is.Pos() < sel.Pos() && endsInExit(is.Body) && kindTested(is.Cond, e) {
